@@ -50,7 +50,7 @@ CHECKS["C10"] = dict(
          "rendered to stylesheet files, every node and attribute is pushed through apply-templates and the TraceListener reports which xsl:template ran; "
          "TLC recomputes Winner / ImportsWinner (matching by the definition XPathSem!Matches) for every pick.",
     note="Trusted: TLC, stylesheet renderer, TraceListener line numbers as template identity, derivation of apply-imports extents from the trace. "
-         "Only the quiet lookup path (XalanTransformer default) is driven so far.",
+         "Both lookup paths are driven: XalanTransformer (quiet conflict warnings) and XSLTEngineImpl with setQuietConflictWarnings(false) (harness/xsltd.cpp).",
     technique="TLA+ definition of template conflict resolution evaluated by TLC; trace validation of TraceListener picks")
 
 CHECKS["C15"] = dict(
